@@ -527,6 +527,17 @@ type castRes struct {
 // open (the statement lists no such conversion, yet JSON has no other spelling of `none`).
 func refcast(v *mval, t *mtype, scalar bool) castRes { return refcastAt(v, t, scalar, "") }
 
+// strictOffenders lists the components that do not fit when no conversion at all is applied
+// (neither scalar nor object -> any-object nor T -> ?T): an implementation that rejects a
+// pair in the zone the statement leaves open may name any of these.
+func strictOffenders(v *mval, t *mtype) []offender {
+	noStructural = true
+	defer func() { noStructural = false }()
+	return refcastAt(v, t, false, "").Offenders
+}
+
+var noStructural bool
+
 func refcastAt(v *mval, t *mtype, scalar bool, path string) castRes {
 	fail := func() castRes { return castRes{Offenders: []offender{{Path: path}}} }
 	switch t.K {
@@ -543,9 +554,15 @@ func refcastAt(v *mval, t *mtype, scalar bool, path string) castRes {
 			}
 			return r
 		}
+		if v.K == mNull && noStructural {
+			return fail()
+		}
 		if v.K == mNull {
 			// null -> none, or null wrapped as a T (T = null / ?..): not decided by the statement
 			return castRes{Open: "null-into-option"}
+		}
+		if noStructural {
+			return fail()
 		}
 		r := refcastAt(v, t.Elem, scalar, path)
 		if r.OK {
@@ -598,7 +615,7 @@ func refcastAt(v *mval, t *mtype, scalar bool, path string) castRes {
 		if v.K == mAnyObj {
 			return castRes{OK: true, Val: v}
 		}
-		if v.K == mObj {
+		if v.K == mObj && !noStructural {
 			c := v.clone()
 			c.K = mAnyObj
 			return castRes{OK: true, Val: c}
